@@ -58,6 +58,29 @@ class Inliner(ast.NodeTransformer):
         return n
 
 
+    def visit_Subscript(self, n):
+        """[E(x) for x in range(N)][i] -> E(i) ;  [E(x) for x in xs][i] -> E(xs[i])   (a table computed once, then indexed)"""
+        n = self.generic_visit(n)
+        v = n.value
+        if isinstance(v, ast.ListComp) and len(v.generators) == 1 and not v.generators[0].ifs and \
+                isinstance(v.generators[0].target, ast.Name) and not isinstance(n.slice, (ast.Slice, ast.Tuple)):
+            g = v.generators[0]
+            x = g.target.id
+            if isinstance(g.iter, ast.Call) and isinstance(g.iter.func, ast.Name) and g.iter.func.id == "range" and \
+                    len(g.iter.args) == 1:
+                rep = n.slice
+            else:
+                rep = ast.Subscript(value=g.iter, slice=n.slice, ctx=ast.Load())
+
+            class S(ast.NodeTransformer):
+                def visit_Name(self_, m):
+                    if m.id == x and isinstance(m.ctx, ast.Load):
+                        return ast.parse(pyfe.src(rep), mode="eval").body
+                    return m
+            return S().visit(ast.parse(pyfe.src(v.elt), mode="eval").body)
+        return n
+
+
 def inline(e, fn, stop=()):
     """expression with single-assignment locals of fn replaced by their definitions (a fresh ast)"""
     return Inliner(local_defs(fn), stop).visit(ast.parse(pyfe.src(e), mode="eval").body)
